@@ -34,11 +34,46 @@ def append_rule(ctx, rid):
     ctx.touch(f, g)
     fl = Flow(g, {"self._full_df": NOTNONE, "sync": FALSE}).run()
     cc = [(n, c) for n, c, nm in all_calls(ctx, f, g) if nm == "pandas.concat" and n.id in fl.visited]
+    if not cc:
+        # the append may live in a helper that receives the accumulated table and the new rows
+        from ..util import callee_func
+        from .harvest import _expands_to
+        writers_only = False
+        for n, c, nm in all_calls(ctx, f, g):
+            h = callee_func(ctx, f, c)
+            if h is None or h.module is not f.module or n.id not in fl.visited:
+                continue
+            bound = dict(zip([p_ for p_ in h.positional if p_ != "self"], c.args))
+            p_old = [p_ for p_, a_ in bound.items() if _expands_to(f, a_, {"self._full_df"})]
+            p_new = [p_ for p_, a_ in bound.items() if _expands_to(f, a_, {"new_df"})]
+            if len(p_old) == 1 and len(p_new) == 1:
+                hg = build_cfg(h.node)
+                ctx.touch(h, hg)
+                hcc = [c2 for _, c2, nm2 in all_calls(ctx, h, hg) if nm2 == "pandas.concat"]
+                hcp = [r for r in ast.walk(h.node) if isinstance(r, ast.Return) and r.value is not None and norm(r.value) in ("%s.copy(deep=True)" % p_new[0], "%s.copy()" % p_new[0])]
+                if len(hcc) == 1 and hcc[0].args and isinstance(hcc[0].args[0], (ast.List, ast.Tuple)) and len(hcc[0].args[0].elts) == 2:
+                    e0, e1 = [norm(x) for x in hcc[0].args[0].elts]
+                    if (e0, e1) == (p_old[0], p_new[0]):
+                        rr.ok("add_df -> %s: concat([accumulated, new]) -- earlier rows first, unchanged" % h.name)
+                    elif (e0, e1) == (p_new[0], p_old[0]):
+                        rr.bad(ctx.finding(rid, h, hcc[0], "%s concatenates the new rows *before* the accumulated ones: earlier rows move" % h.name, construct="concat-orientation"), "concat orientation")
+                    else:
+                        raise AnalysisError("idiom changed: operands of pd.concat in %s" % h.qualname)
+                    if hcp:
+                        rr.ok("add_df -> %s: no table yet -> a copy of the new rows" % h.name)
+                    else:
+                        raise AnalysisError("idiom changed: %s does not start from a copy of the new rows" % h.qualname)
+                    writers_only = True
+                    break
+        if writers_only:
+            cc = None
 
     def expands(e, want):
         from .harvest import _expands_to
         return _expands_to(f, e, {want})
-    if len(cc) == 1 and cc[0][1].args and isinstance(cc[0][1].args[0], (ast.List, ast.Tuple)) and len(cc[0][1].args[0].elts) == 2:
+    if cc is None:
+        pass
+    elif len(cc) == 1 and cc[0][1].args and isinstance(cc[0][1].args[0], (ast.List, ast.Tuple)) and len(cc[0][1].args[0].elts) == 2:
         a0, a1 = cc[0][1].args[0].elts
         if expands(a0, "self._full_df") and expands(a1, "new_df"):
             rr.ok("add_df: concat([accumulated, new]) -- earlier rows first, unchanged")
@@ -51,9 +86,13 @@ def append_rule(ctx, rid):
     else:
         raise AnalysisError("idiom changed: pd.concat calls in add_df")
     fl2 = Flow(g, {"self._full_df": NONE, "sync": FALSE}).run()
-    cp = [n for n in g.nodes if n.id in fl2.visited and n.kind == "stmt" and isinstance(n.ast, ast.Assign) and norm(n.ast.value) in ("new_df.copy(deep=True)", "new_df.copy()")]
-    cc2 = [1 for n, c, nm in all_calls(ctx, f, g) if nm == "pandas.concat" and n.id in fl2.visited]
-    if cp and not cc2:
+    if cc is None:
+        fl2 = None
+    cp = [] if fl2 is None else [n for n in g.nodes if n.id in fl2.visited and n.kind == "stmt" and isinstance(n.ast, ast.Assign) and norm(n.ast.value) in ("new_df.copy(deep=True)", "new_df.copy()")]
+    cc2 = [] if fl2 is None else [1 for n, c, nm in all_calls(ctx, f, g) if nm == "pandas.concat" and n.id in fl2.visited]
+    if fl2 is None:
+        pass
+    elif cp and not cc2:
         rr.ok("add_df: no table yet -> a copy of the new rows")
     elif cc2:
         raise AnalysisError("idiom changed: add_df concatenates although no table is accumulated")
